@@ -80,7 +80,7 @@ PREFIXY = [P('TrainX', meta_name='train_x', params=[par('x', default=1)]),
            P('Train', meta_name='train', inputs=[inp('train_x', 'name')]),
            P('Model', inputs=[inp('TrainX'), inp('train', 'name')], group='train')]
 EXCL = [P('Load', params=[par('x', default=1)]), P('Report', inputs=[inp('Load')]), P('Extra', inputs=[inp('load', 'name')])]
-ABSTRACT = [P('Base', abstract=True, params=[par('x', default=1)]), P('Impl', params=[par('x', default=1)]),
+ABSTRACT = [P('Base', abstract=True, params=[par('x', default=1)]), P('Impl', abstract_false=True, params=[par('x', default=1)]),
             P('Use', inputs=[inp('Impl')])]
 EXACTPAT = [P('PartA', group='parts', params=[par('x', default=1)]), P('PartAb', group='parts', meta_name='part_ab'),
             P('PartAReport', group='parts', meta_name='part_a_report', inputs=[inp('PartA')]),
@@ -307,7 +307,7 @@ def bad(case):
 
     def harness(ctx):
         fs = keylib.fresh_fs()
-        kind = ctx.choice('kind', 5)
+        kind = ctx.choice('kind', 6)
         mode = ctx.flag('parameter_mode')
         ns = [None, 'ns'][ctx.choice('ns', 2)]
         if kind == 0:
@@ -318,10 +318,27 @@ def bad(case):
             spec = [P('A', inputs=[inp('c', 'name')]), P('B', inputs=[inp('A')]), P('C', inputs=[inp('B')])]
         elif kind == 3:
             spec = [P('A', inputs=[inp('missing', 'name')])]
+        elif kind == 5:
+            spec = None
         else:
             spec = [P('A', params=[par('x', default=1)]), P('B', inputs=[inp('A'), inp('gone', 'param')])]
+        if spec is None:
+            # the required input exists only inside a mounted namespace, not where the declaring task lives
+            from taskchain import Config
+            inner = family.make_pipeline([P('Deep', params=[par('x', default=1)])])
+            outer = family.make_pipeline([P('Top', inputs=[inp('deep', 'name')])])
+            base = fs.path('/data')
+            ci = Config(base, name='inner', namespace='sub', data={'tasks': list(inner.values())})
+            info = {'kind': 'input exists only in a mounted namespace', 'parameter_mode': mode, 'namespace': None}
+            try:
+                keylib.chain(Config(base, name='outer', data={'tasks': list(outer.values()), 'uses': [ci]}), shared={}, parameter_mode=mode)
+                raised = None
+            except Exception as e:
+                raised = type(e).__name__
+            ctx.check_concrete(raised is not None, 'cycle-or-dangling-raises', dict(info, raised=raised))
+            return
         cl = family.make_pipeline(spec)
-        info = {'kind': ['self-cycle', '2-cycle', '3-cycle', 'dangling by name', 'dangling required input parameter'][kind],
+        info = {'kind': ['self-cycle', '2-cycle', '3-cycle', 'dangling by name', 'dangling required input parameter', ''][kind],
                 'parameter_mode': mode, 'namespace': ns}
         try:
             keylib.chain(keylib.config(fs, cl.values(), {}, namespace=ns), shared={}, parameter_mode=mode)
